@@ -1195,6 +1195,12 @@ func (p *Prover) inferPhiInvariants() {
 				if !ok {
 					break
 				}
+				if _, isSlice := phi.Type().Underlying().(*types.Slice); isSlice {
+					if p.inferSliceLenInvariant(phi, b) {
+						added = true
+					}
+					continue
+				}
 				if !isInt(phi.Type()) {
 					continue
 				}
@@ -1281,6 +1287,102 @@ func (p *Prover) inferPhiInvariants() {
 			break
 		}
 	}
+}
+
+// inferSliceLenInvariant: for a loop-carried slice variable, find the smallest constant K (among the constants the
+// function compares against, and those minus 1 and 2) such that len(phi) <= K is inductive.
+func (p *Prover) inferSliceLenInvariant(phi *ssa.Phi, b *ssa.BasicBlock) bool {
+	pl := p.Env.LenOf(phi)
+	if len(pl.T) != 1 || pl.C != 0 {
+		return false
+	}
+	loop := false
+	for _, e := range phi.Edges {
+		if e != ssa.Value(phi) && dependsOnAny(e, phi, 0) {
+			loop = true
+		}
+	}
+	if !loop {
+		return false
+	}
+	ks := map[int64]bool{}
+	EachInstr(p.Fn, func(_ *ssa.BasicBlock, _ int, in ssa.Instruction) {
+		if bo, ok := in.(*ssa.BinOp); ok {
+			switch bo.Op {
+			case token.LSS, token.LEQ, token.GTR, token.GEQ:
+				for _, o := range []ssa.Value{bo.X, bo.Y} {
+					if k, isC := ConstInt(o); isC && k > 0 && k <= 1<<20 {
+						ks[k], ks[k-1], ks[k-2] = true, true, true
+					}
+				}
+			}
+		}
+	})
+	var sorted []int64
+	for k := range ks {
+		if k >= 0 {
+			sorted = append(sorted, k)
+		}
+	}
+	sort.Slice(sorted, func(i, j int) bool { return sorted[i] < sorted[j] })
+	if len(sorted) > 24 {
+		sorted = sorted[:24]
+	}
+	for _, k := range sorted {
+		goal := LinConst(k).Sub(pl)
+		if p.hasPhiFact(goal) {
+			return false
+		}
+		hyp := Fact{goal, fmt.Sprintf("loop invariant len(%s) <= %d", Expr(phi), k)}
+		p.phiFacts = append(p.phiFacts, hyp)
+		p.blockMemo = map[*ssa.BasicBlock][]Fact{}
+		okAll := true
+		for i, e := range phi.Edges {
+			if e == ssa.Value(phi) {
+				continue
+			}
+			k := k
+			if !p.proveEdgeValue(func(v ssa.Value) Lin { return LinConst(k).Sub(p.Env.LenOf(v)) }, e, b.Preds[i], b, phi, 0) {
+				okAll = false
+				break
+			}
+		}
+		if okAll {
+			return true
+		}
+		p.phiFacts = p.phiFacts[:len(p.phiFacts)-1]
+		p.blockMemo = map[*ssa.BasicBlock][]Fact{}
+	}
+	return false
+}
+
+// dependsOnAny: like dependsOn but through slices/appends as well.
+func dependsOnAny(v ssa.Value, phi *ssa.Phi, d int) bool {
+	if d > 12 {
+		return false
+	}
+	if v == ssa.Value(phi) {
+		return true
+	}
+	switch x := v.(type) {
+	case *ssa.Call:
+		for _, a := range x.Call.Args {
+			if dependsOnAny(a, phi, d+1) {
+				return true
+			}
+		}
+	case *ssa.Slice:
+		return dependsOnAny(x.X, phi, d+1)
+	case *ssa.Phi:
+		for _, e := range x.Edges {
+			if e != v && dependsOnAny(e, phi, d+1) {
+				return true
+			}
+		}
+	case *ssa.ChangeType:
+		return dependsOnAny(x.X, phi, d+1)
+	}
+	return false
 }
 
 // dependsOn: v is computed from phi (loop-carried).
